@@ -222,6 +222,8 @@ pub struct GenParams {
     pub p_unnamed: u64,
     pub p_weird_name: u64,
     pub malformed: bool,
+    /// access lists of up to 40 reads / 30 writes in arbitrary order with repeats (the planner's searches over long lists)
+    pub long_lists: bool,
     pub tl_in_batch: bool,
     pub max_depth: u32,
 }
@@ -315,8 +317,8 @@ impl<'r> Gen<'r> {
                 let (r, w) = SYS_MENU[m as usize];
                 out.push(Reg::Sys { tag, name: name.clone(), deps, reads: r.to_vec(), writes: w.to_vec(), time, kind: SysKind::Menu(m) });
             } else {
-                let reads = self.res_set(p, 3);
-                let writes = self.res_set(p, 2);
+                let reads = self.res_set(p, if p.long_lists { 40 } else { 3 });
+                let writes = self.res_set(p, if p.long_lists { 30 } else { 2 });
                 out.push(Reg::Sys { tag, name: name.clone(), deps, reads, writes, time, kind: SysKind::Dynamic });
             }
             if !name.is_empty() && !names.contains(&name) {
@@ -333,6 +335,9 @@ impl<'r> Gen<'r> {
 pub fn gen_random(rng: &mut Rng, malformed: bool) -> Vec<Reg> {
     let style = rng.below(10);
     let n_res = match rng.below(4) { 0 => 1 + rng.below(2), 1 => 2 + rng.below(3), 2 => 4 + rng.below(6), _ => 8 + rng.below(16) };
+    // one program in ten: long access lists over many resources
+    let long_lists = style == 9;
+    let n_res = if long_lists { 20 + 2 * n_res } else { n_res };
     let p = GenParams {
         max_sys: 0,
         n_res,
@@ -345,6 +350,7 @@ pub fn gen_random(rng: &mut Rng, malformed: bool) -> Vec<Reg> {
         p_unnamed: [0, 10, 40][rng.below(3) as usize],
         p_weird_name: [0, 20][rng.below(2) as usize],
         malformed,
+        long_lists,
         tl_in_batch: false,
         max_depth: 3,
     };
@@ -463,6 +469,7 @@ pub fn gen_exec(rng: &mut Rng, tl_in_batch: bool) -> Vec<Reg> {
         p_unnamed: 10,
         p_weird_name: 0,
         malformed: false,
+        long_lists: false,
         tl_in_batch,
         max_depth: 2,
     };
